@@ -1,6 +1,7 @@
 import Driver.Common
 import IoraModel.Model.JsonFloat
 import IoraModel.Model.JsonSpec
+import IoraModel.Model.JsonApi
 /-! Line-protocol driver of the JSON model (C13).  Same ops and answers as `harness/c13_json.cpp`; `order` is an
 implementation-only op (the iteration order of the real hash map is an input of `ser`, not something the model computes). -/
 namespace Iora.Driver.Json
@@ -37,31 +38,6 @@ partial def canon : Json → Json
   | j => j
 
 def sameValue (a b : Json) : Bool := dump true a == dump true b
-
-/-- error answer of the throwing wrappers: `parse_error`'s message carries line, column and the parser's message, no offset -/
-def showErrW (bs : Bytes) (e : Err) : String :=
-  let (l, c) := location bs e.2
-  s!"errw {kindName e.1} {l} {c}"
-
-/-- `JsonStreamParser`: every `feed` appends the chunk and re-parses the whole buffer; the first complete parse latches `_complete`;
-    `finish` re-parses only when nothing was complete yet.  (thin wrapper: mirrored here, not part of the theorems) -/
-structure StreamSt where
-  buf : Bytes := []
-  value : Json := .null
-  complete : Bool := false
-  error : Option (Bytes × Err) := none
-
-def streamFeed (ops : FloatOps) (lim : Limits) (st : StreamSt) (chunk : Bytes) : StreamSt × Bool :=
-  let buf := st.buf ++ chunk
-  match parse ops lim buf with
-  | .ok v => ({ buf := buf, value := v, complete := true, error := none }, true)
-  | .error e => ({ st with buf := buf, error := some (buf, e) }, false)
-
-def streamFinish (ops : FloatOps) (lim : Limits) (st : StreamSt) : StreamSt × Bool :=
-  if st.complete then (st, true) else
-  match parse ops lim st.buf with
-  | .ok v => ({ st with value := v, complete := true, error := none }, true)
-  | .error e => ({ st with error := some (st.buf, e) }, false)
 
 def splitAtCuts (bs : Bytes) (cuts : List Nat) : List Bytes :=
   let rec go (rest : Bytes) (off : Nat) : List Nat → List Bytes
@@ -117,14 +93,15 @@ def readWhole (s : String) : Option Json :=
   | some (v, []) => some v
   | _ => none
 
-def fops : FloatOps := FloatRef.ops
+/-- the floating-point primitives of a process whose LC_NUMERIC decimal point is `dp` (driver state; `locale` op) -/
+def fopsIn (dp : Bytes) : FloatOps := opsIn FloatRef.libc dp
 
 def showErr (bs : Bytes) (e : Err) : String :=
   let (l, c) := location bs e.2
   s!"err {kindName e.1} {e.2} {l} {c}"
 
 /-- src -> value or the answer line -/
-def loadSrc (src : String) : Except String Json :=
+def loadSrc (fops : FloatOps) (src : String) : Except String Json :=
   match src.toList with
   | 't' :: h =>
     match (if h.isEmpty then some [] else ofHexChars h) with
@@ -140,8 +117,8 @@ def loadSrc (src : String) : Except String Json :=
   | _ => .error "bad-op"
 
 /-- `<hex text> <1 iff the text parses back (default limits) to a value equal to w for Json::operator== >` -/
-def serAnswer (text : Bytes) (w : Json) : String :=
-  let eq := match parse fops {} text with
+def serAnswer (fops : FloatOps) (text : Bytes) (w : Json) (lim : Limits := {}) : String :=
+  let eq := match parse fops lim text with
     | .ok v' => eqv v' w
     | .error _ => false
   s!"{toHex text} {bit eq}"
@@ -153,92 +130,154 @@ def withOrder (v : Json) (order : String) : Option Json :=
   | some w => if sameValue w v && dump false w == order then some w else none
   | none => none
 
-def step (_ : Unit) : List String → Unit × String
+def showThrown (t : Thrown) : String := s!"errw {kindName t.1} {t.2.1} {t.2.2}"
+
+/-- `v<value>` sources only (no text) -/
+def loadSrcV (src : String) : Option Json :=
+  match src.toList with
+  | 'v' :: b => match readValue b with
+    | some (v, []) => some v
+    | _ => none
+  | _ => none
+
+/-- answer of the `api` ops: the constructed value, the (unchanged) operand it was copied from, its sorted compact text and whether
+    that text parses back to an equal value -/
+def apiAnswer (fops : FloatOps) (r base : Json) : String :=
+  s!"ok {dump true r} {dump true base} " ++ serAnswer fops (serialize fops { sortKeys := true } 0 r) r
+
+def stepIn (fops : FloatOps) : List String → String
   | ["parse", d, a, m, s, hx] =>
     match d.toNat?, a.toNat?, m.toNat?, s.toNat?, ofHex hx with
     | some d, some a, some m, some s, some bs =>
       match parse fops { depthMax := d, arrayItemsMax := a, membersMax := m, stringLengthMax := s } bs with
-      | .ok v => ((), "ok " ++ dump true v)
-      | .error e => ((), showErr bs e)
-    | _, _, _, _, _ => ((), "bad-op")
+      | .ok v => ("ok " ++ dump true v)
+      | .error e => (showErr bs e)
+    | _, _, _, _, _ => ("bad-op")
   | ["ser", pretty, sort, indent, src, order] =>
     match parseBit pretty, parseBit sort, ofHex indent with
     | some pretty, some sort, some indent =>
-      match loadSrc src with
-      | .error l => ((), l)
+      match loadSrc fops src with
+      | .error l => (l)
       | .ok v =>
         match withOrder v order with
-        | none => ((), "order-invalid")
-        | some w => ((), serAnswer (serialize fops { pretty := pretty, sortKeys := sort, indent := indent } 0 w) w)
-    | _, _, _ => ((), "bad-op")
+        | none => ("order-invalid")
+        | some w => (serAnswer fops (serialize fops { pretty := pretty, sortKeys := sort, indent := indent } 0 w) w)
+    | _, _, _ => ("bad-op")
   -- ---- public wrappers (thin; same model answers)
   | ["pvia", which, hx] =>
     match ofHex hx with
-    | none => ((), "bad-op")
+    | none => "bad-op"
     | some bs =>
-      let r := parse fops {} bs
-      if which = "orthrow" || which = "str" || which = "pstring" || which = "istream" then
-        match r with
-        | .ok v => ((), "ok " ++ dump true v)
-        | .error e => ((), showErrW bs e)
-      else if which = "noexc" || which = "safe" then
-        match r with
-        | .ok v => ((), "ok " ++ dump true v)
-        | .error _ => ((), "ok n")
-      else ((), "bad-op")
+      let r : Option (Except Thrown Json) :=
+        if which = "orthrow" || which = "pstring" then some (parseOrThrow fops {} bs)
+        else if which = "str" then some (parseFlag fops true bs)
+        else if which = "istream" then some (readStream fops bs)
+        else if which = "noexc" || which = "safe" then some (parseFlag fops false bs)
+        else none
+      match r with
+      | none => "bad-op"
+      | some (.ok v) => "ok " ++ dump true v
+      | some (.error t) => showThrown t
   | ["pthrow", d, a, m, s, hx] =>
     match d.toNat?, a.toNat?, m.toNat?, s.toNat?, ofHex hx with
     | some d, some a, some m, some s, some bs =>
-      match parse fops { depthMax := d, arrayItemsMax := a, membersMax := m, stringLengthMax := s } bs with
-      | .ok v => ((), "ok " ++ dump true v)
-      | .error e => ((), showErrW bs e)
-    | _, _, _, _, _ => ((), "bad-op")
+      match parseOrThrow fops { depthMax := d, arrayItemsMax := a, membersMax := m, stringLengthMax := s } bs with
+      | .ok v => "ok " ++ dump true v
+      | .error t => showThrown t
+    | _, _, _, _, _ => "bad-op"
   | ["stream", d, a, m, s, cuts, hx] =>
     match d.toNat?, a.toNat?, m.toNat?, s.toNat?, ofHex hx with
     | some d, some a, some m, some s, some bs =>
       let lim : Limits := { depthMax := d, arrayItemsMax := a, membersMax := m, stringLengthMax := s }
       let cs : Option (List Nat) := if cuts = "-" then some [] else (cuts.splitOn ",").mapM String.toNat?
       match cs with
-      | none => ((), "bad-op")
+      | none => "bad-op"
       | some cs =>
-        let (st, bits) := (splitAtCuts bs cs).foldl (fun (acc : StreamSt × String) ch =>
-          let (st', ok) := streamFeed fops lim acc.1 ch
+        let chunks := splitAtCuts bs cs
+        -- the feed() results, one by one (the same `StreamSt.feed` the theorems S1-S3 are about)
+        let (_, bits) := chunks.foldl (fun (acc : StreamSt × String) ch =>
+          let (st', ok) := acc.1.feed fops lim ch
           (st', acc.2 ++ bit ok)) (({} : StreamSt), "")
-        let (st, fin) := streamFinish fops lim st
+        let (st, fin) := streamRun fops lim chunks
         let state := if st.complete then "ok " ++ dump true st.value else
           match st.error with
           | some (b, e) => showErr b e
           | none => "none"
-        ((), s!"s {bits} {bit fin} {state}")
-    | _, _, _, _, _ => ((), "bad-op")
+        s!"s {bits} {bit fin} {state}"
+    | _, _, _, _, _ => "bad-op"
   | ["svia", "dump", indent, ch, _ea, sort, src, order] =>
     match indent.toInt?, ch.toNat?, parseBit sort with
     | some indent, some ch, some sort =>
-      match loadSrc src with
-      | .error l => ((), l)
+      match loadSrc fops src with
+      | .error l => l
       | .ok v =>
         match withOrder v order with
-        | none => ((), "order-invalid")
-        | some w =>
-          let o : Opts := if indent ≥ 0 then { pretty := true, sortKeys := sort, indent := List.replicate indent.toNat (b8 ch) }
-            else { pretty := false, sortKeys := sort, indent := Gen.Json.indentDefault.map b8 }
-          ((), serAnswer (serialize fops o 0 w) w)
-    | _, _, _ => ((), "bad-op")
+        | none => "order-invalid"
+        | some w => serAnswer fops (Iora.Json.dump fops indent (b8 ch) sort w) w
+    | _, _, _ => "bad-op"
   | ["svia", which, src, order] =>
-    match loadSrc src with
-    | .error l => ((), l)
+    match loadSrc fops src with
+    | .error l => l
     | .ok v =>
       match withOrder v order with
-      | none => ((), "order-invalid")
+      | none => "order-invalid"
       | some w =>
-        if which = "ostream" then ((), serAnswer (serialize fops {} 0 w) w)
-        else if which = "string" then
-          match w with
-          | .str s => ((), serAnswer s w)
-          | _ => ((), serAnswer (serialize fops {} 0 w) w)
-        else ((), "bad-op")
-  | _ => ((), "bad-op")
+        if which = "ostream" then serAnswer fops (writeStream fops w) w
+        else if which = "string" then serAnswer fops (toStdString fops w) w
+        else "bad-op"
+  -- ---- serialize, re-parse under the GIVEN limits (J2's `within lim` at its boundary)
+  | ["serlim", d, a, m, sl, pretty, sort, indent, src, order] =>
+    match d.toNat?, a.toNat?, m.toNat?, sl.toNat?, parseBit pretty, parseBit sort, ofHex indent with
+    | some d, some a, some m, some sl, some pretty, some sort, some indent =>
+      match loadSrcV src with
+      | none => "bad-op"
+      | some v =>
+        match withOrder v order with
+        | none => "order-invalid"
+        | some w =>
+          let lim : Limits := { depthMax := d, arrayItemsMax := a, membersMax := m, stringLengthMax := sl }
+          let text := serialize fops { pretty := pretty, sortKeys := sort, indent := indent } 0 w
+          let eq := match parse fops lim text with
+            | .ok v' => eqv v' w
+            | .error _ => false
+          s!"{text.length} {bit eq}"
+    | _, _, _, _, _, _, _ => "bad-op"
+  -- ---- value-construction API
+  | ["api", "u64", n] =>
+    match n.toNat? with
+    | some n => if n < 2 ^ 64 then apiAnswer fops (ofUInt64 n) .null else "bad-op"
+    | none => "bad-op"
+  | ["api", "f32", hx] =>
+    match ofHex hx with
+    | some [b0, b1, b2, b3] =>
+      apiAnswer fops (ofFloat (UInt32.ofNat (((b0.toNat * 256 + b1.toNat) * 256 + b2.toNat) * 256 + b3.toNat))) .null
+    | _ => "bad-op"
+  | ["api", "initlist", v] =>
+    match readWhole v with
+    | some (.arr xs) => if xs.length ≤ 4 then apiAnswer fops (ofInitList xs) (.arr xs) else "bad-op"
+    | _ => "bad-op"
+  | ["api", "pushback", base, v] =>
+    match readWhole base, readWhole v with
+    | some base, some v => apiAnswer fops (pushBack base v) base
+    | _, _ => "bad-op"
+  | ["api", "setidx", base, i, v] =>
+    match readWhole base, i.toNat?, readWhole v with
+    | some base, some i, some v => if i ≤ 64 then apiAnswer fops (setIndex base i v) base else "bad-op"
+    | _, _, _ => "bad-op"
+  | ["api", "setkey", base, k, v] =>
+    match readWhole base, ofHex k, readWhole v with
+    | some base, some k, some v => apiAnswer fops (setKey base k v) base
+    | _, _, _ => "bad-op"
+  | _ => "bad-op"
 
-def main : IO Unit := runLines () step
+/-- driver state: the decimal point of the process locale (`locale <name> <decimal point hex>`) -/
+def step (dp : Bytes) : List String → Bytes × String
+  | ["locale", _name, hx] =>
+    match ofHex hx with
+    | some d => if d.isEmpty then (dp, "bad-op") else (d, s!"locale {toHex d}")
+    | none => (dp, "bad-op")
+  | l => (dp, stepIn (fopsIn dp) l)
+
+def main : IO Unit := runLines pointC step
 
 end Iora.Driver.Json
